@@ -186,6 +186,10 @@ func (sc *Scenario) RunOnce(ch *vx.Chooser, keepLog bool) (res *ExecResult) {
 		}
 		opts := sc.options(w, st)
 		if len(opts) == 0 {
+			if w.Undelivered() > 0 {
+				w.Flush() // nothing else can happen: the next tick delivers the late completion
+				continue
+			}
 			break
 		}
 		if !sc.NoPrune && ch.Seen(func() string { return w.Key(sc.KeyResponses, sc.Bound >= 0) + st.key() }) {
@@ -204,6 +208,8 @@ func (sc *Scenario) RunOnce(ch *vx.Chooser, keepLog bool) (res *ExecResult) {
 	if sc.unknownViolation(w) {
 		return
 	}
+	w.Flush()
+	w.Quiesce()
 	if sc.Epilogue != nil {
 		sc.Epilogue(w)
 	}
@@ -340,6 +346,10 @@ func (sc *Scenario) options(w *world.World, st *runState) []option {
 			i := i
 			if p.Kind() == t_aio.Store {
 				opts = append(opts, option{"commitfail " + p.Label(), 1, func() { st.commitFaults--; w.Exec(i, world.CommitFail) }})
+				if !readOnly(p) && len(p.SQE.Submission.Store.Transaction.Commands) > 1 {
+					// the same budget: a statement in the middle of a multi-command transaction fails
+					opts = append(opts, option{"stmtfail " + p.Label(), 1, func() { st.commitFaults--; w.Exec(i, world.StmtFail) }})
+				}
 			}
 		}
 	}
